@@ -128,8 +128,8 @@ def parse_terse(out, harnesses, rc):
                     "failed_checks": [], "harness": h} for h in harnesses}
     if re.search(r"^error(\[E\d+\])?:", out, re.M) and "Checking harness" not in out:
         # the crate (or a harness) no longer compiles under cfg(kani): nothing is decided
-        first = re.search(r"^error.*(?:\n.*){0,6}", out, re.M).group(0)
-        raise Undecided("cargo kani: compilation failed\n" + first)
+        errs = re.findall(r"^error.*(?:\n.*){0,8}", out, re.M)
+        raise Undecided("cargo kani: compilation failed\n" + "\n".join(errs[:6]))
     thread_harness = {}
     single = None
     blocks = re.split(r"^(?=Thread \d+: )", out, flags=re.M)
